@@ -1,7 +1,7 @@
 (* C14 — ProbabilisticTensorDictModule._dist_sample (tensordict/nn/probabilistic.py:662-758) as a decision table over
    InteractionType x what the distribution object can do.  DEFINITIONS ONLY.  Which attribute / method is consulted,
    with which sample count — not what torch.distributions computes (out of scope). *)
-From Coq Require Import List Bool.
+From Coq Require Import List Bool String.
 Import ListNotations.
 
 Inductive itype := TMode | TMedian | TMean | TRandom | TDeterministic.
@@ -113,4 +113,13 @@ Definition action_eqb (a b : action) : bool :=
   | ADetSample, ADetSample | AMode, AMode | AMedian, AMedian | AMean, AMean | ARsampleN, ARsampleN | ASampleN, ASampleN
   | ARsample, ARsample | ASample, ASample | ARaiseNotImpl, ARaiseNotImpl | ARaiseRuntime, ARaiseRuntime => true
   | _, _ => false
+  end.
+
+(* ProbabilisticTensorDictSequential.__init__ (probabilistic.py:1012-1016): the final module samples unless every one of its
+   sample keys is already written by the modules before it.  [None] = the final module has no dist_sample_keys
+   (getattr default [None]: None is never an out key). *)
+Definition requires_sample (sample_keys : option (list (list String.string))) (upstream : list (list String.string)) : bool :=
+  match sample_keys with
+  | None => true
+  | Some ks => existsb (fun k => negb (existsb (fun u => if list_eq_dec String.string_dec k u then true else false) upstream)) ks
   end.
